@@ -106,7 +106,7 @@ pub fn sched_run(cfg: &MmCfg, dir: &str, rng: &mut Rng, schedule: &[(u64, String
     let (k, threads, delim, header) = (cfg.k, cfg.threads, cfg.delim.clone(), cfg.header);
     let (inp2, out2) = (inp.clone(), out.clone());
     let handle = std::thread::spawn(move || run_oligo(&inp2, &out2, k, true, WPath::Mmap, threads, &delim, header, None));
-    let to = Duration::from_secs(8);
+    let to = Duration::from_secs(30);
     let mut fail: Option<String> = None;
     // all workers arrive at worker_start; start them one by one (in arrival order) up to their first before_take
     match rec.wait_quiescent(threads, to) {
